@@ -170,6 +170,28 @@ def val_signed(rot=0):
     return make
 
 
+SPECIAL = (float("nan"), 1.5, float("inf"), 0.0, -2.0, float("-inf"), -0.0, 3.0, 0.5)
+
+
+def val_special(rot=0):
+    """NaN, +-inf and +-0.0 among ordinary values"""
+
+    def make(letters, items):
+        table = {}
+        for n, lab in enumerate(itertools.product(*[items[l] for l in letters])):
+            table[lab] = SPECIAL[(n * 2 + rot) % len(SPECIAL)]
+        return lambda lab: table[lab]
+
+    return make
+
+
+def val_zero():
+    def make(letters, items):
+        return lambda lab: 0.0
+
+    return make
+
+
 def val_halfpow(rot=0):
     """powers of two with small exponents (incl. negative): exact for * and /"""
 
